@@ -31,6 +31,15 @@ def fbits(dt, x):
     return struct.unpack("<Q", struct.pack("<d", x))[0]
 
 
+def grid_nb(r, res, L):
+    """an off-grid real next to a grid point of a signed L-bit field: zero, +-1, the ends, anywhere; distance
+    tiny, a quarter, just below / at / just above the half step"""
+    lo, hi = -(1 << (L - 1)), (1 << (L - 1)) - 1
+    k = r.choice([0, 0, 0, 1, -1, 2, -2, lo + 1, hi - 1, r.randrange(lo + 1, hi), r.randrange(-60, 61)])
+    d = r.choice([1e-6, -1e-6, 1e-3, -1e-3, 0.25, -0.25, 0.499, -0.499, 0.5, -0.5, 0.501, -0.501])
+    return (k + d) * res
+
+
 class Gen:
     def __init__(self, root, repo="/repo"):
         self.dict = source_dictionary(repo)
@@ -370,7 +379,7 @@ class Gen:
         out = ["c%d" % len(ent)]
         for s, (b, a) in ent:
             bias = r.choice([0.0, 0.01, -0.01, 81.91, -81.92, 1e9, -1e9, r.uniform(-81.9, 81.9), r.randrange(-8192, 8192) * 0.01,
-                             float("nan") if mode == "wild" else 0.5])
+                             float("nan") if mode == "wild" else 0.5, grid_nb(r, 0.01, 14), grid_nb(r, 0.01, 14)])
             out += ["i%d" % s, "g%d:%d" % (b, a), "f%x" % fbits("f32", bias)]
         return out
 
@@ -383,7 +392,8 @@ class Gen:
         r.shuffle(ent)
         out = ["c%d" % len(ent)]
         for b, a in ent:
-            bias = r.choice([0.0, 0.02, -0.02, 655.34, -655.36, r.uniform(-655, 655), r.randrange(-32768, 32768) * 0.02, 1e9])
+            bias = r.choice([0.0, 0.02, -0.02, 655.34, -655.36, r.uniform(-655, 655), r.randrange(-32768, 32768) * 0.02, 1e9,
+                             grid_nb(r, 0.02, 16), grid_nb(r, 0.02, 16)])
             out += ["g%d:%d" % (b, a), "f%x" % fbits("f32", bias)]
         return out
 
